@@ -1,6 +1,6 @@
 """C04 — decoding is independent of segmentation and never stalls (DESIGN.md 4/C04)."""
 from ..mir import Callee, last_seg, loc, op_int, op_place
-from .common import const_cmp_of_switch, gates_of_value, ok_some_blocks, returns_variant
+from .common import const_cmp_of_switch, gates_of_value, is_lock_call, ok_some_blocks, returns_variant
 from . import c07
 
 EXPLANATION = (
@@ -375,13 +375,61 @@ def run(ctx):
                    "the transport is polled for a new message before the carry-over buffer is offered to the decoder: a second frame that arrived in the same message is only "
                    "delivered when the next message arrives")
 
+    # ---------------- R4j ----------------------------------------------------------------------
+    # what an adapter takes out of its carry-over field must be back in the field (or known to be empty) before the transport is polled:
+    # the poll may return Pending, and whatever lives only in a local variable of poll_next is dropped with that return
+    for b in streams:
+        inner = [(blk, c, t) for (blk, c, t) in b.calls() if (c.method or "").startswith("poll_next")]
+        sname = last_seg(b.impl_self_def or "")
+        selfish = {i for i, l in enumerate(b.locals) if sname and (sname + "<") in l["ty"].get("s", "") and l["ty"].get("s", "").lstrip().startswith(("&", "std::pin::Pin<&", "core::pin::Pin<&"))} | {1}
+        for (tb, tc, tt_) in b.calls():
+            if tc.name not in ("Option::take", "Option::replace") and not tc.target.endswith(("mem::take", "mem::replace")):
+                continue
+            ap = op_place(tt_["args"][0]) if tt_["args"] else None
+            if ap is None:
+                continue
+            fld = None
+            for l in b.slice_back([ap[0]], stop_call=lambda cc: True)[0] | {ap[0]}:
+                for d in b.defs().get(l, []):
+                    if d[0] == "assign" and d[3]["rv"]["k"] == "ref":
+                        q = d[3]["rv"]["p"]
+                        fl = [e[2] for e in q[1] if e[0] == "field" and len(e) > 2]
+                        if q[0] in selfish and fl and "BytesMut" in (b.local_ty(tt_["dest"][0]) or ""):
+                            fld = fl[-1]
+            if fld is None:
+                continue
+            taken, _, _ = b.slice_fwd([tt_["dest"][0]])
+            safe = set()
+            for blk in b.rpo():
+                for st in b.stmts(blk):
+                    if st["k"] == "assign" and st["p"][0] in selfish and any(e[0] == "field" and len(e) > 2 and e[2] == fld for e in st["p"][1]):
+                        safe.add(blk)          # written back
+                t2 = b.term(blk)
+                if t2 and t2["k"] == "call":
+                    c2 = Callee(t2["f"])
+                    if c2.method in ("is_empty", "len", "has_remaining", "remaining") and any(op_place(a) and op_place(a)[0] in taken for a in t2["args"]):
+                        safe.add(blk)          # emptiness examined: the adapter decides on it
+                    if c2.method in ("insert", "replace", "get_or_insert", "get_or_insert_with") and t2["args"] and op_place(t2["args"][0]) and \
+                            any(d[0] == "assign" and d[3]["rv"]["k"] == "ref" and d[3]["rv"]["p"][0] in selfish and any(e[0] == "field" and len(e) > 2 and e[2] == fld for e in d[3]["rv"]["p"][1])
+                                for d in b.defs().get(op_place(t2["args"][0])[0], [])):
+                        safe.add(blk)
+            for g in gates_of_value(b, tt_["dest"][0]):
+                if g.kind == "option" and g.level == 0:
+                    safe.add(g.target_for(0))      # nothing was there
+            start = b.term(tb).get("t")
+            reach_j = b.reach_from(start, avoid=frozenset(safe)) if start is not None else set()
+            hit = [(ib, it) for (ib, ic, it) in inner if ib in reach_j]
+            ctx.ob("R4j", b.defp, f"carry-over-restored-before-transport-poll:{fld}", loc(tt_["sp"]), not hit,
+                   f"what is taken out of `{fld}` is written back or examined for emptiness before the transport is polled" if not hit else
+                   f"`{fld}` is emptied into a local variable and the transport is polled ({loc(hit[0][1]['sp'])}) before it is put back: when that poll returns Pending the "
+                   "function returns and the carried-over bytes — the first part of a frame that straddles two messages — are dropped; the rest of the frame then fails to decode")
     # ---------------- R4e ----------------------------------------------------------------------
     inserters = set()
     for b in prog.prod_bodies():
         if b.root != b.defp or b.argc < 2 or b.local_ty(0) not in ("bool", "()"):
             continue
         fc_ = prog.flat(b.defp).calls()       # the lock may be taken in a private helper of the cache type; a wrapper counts too
-        if any(c.method in ("lock", "try_lock") and "Mutex" in c.self_s for (_, c, _) in fc_) and any(c.method == "insert" and "LruCache" in c.self_s for (_, c, _) in fc_) \
+        if any(is_lock_call(c) for (_, c, _) in fc_) and any(c.method == "insert" and "LruCache" in c.self_s for (_, c, _) in fc_) \
                 and "shadowsocks" in b.defp and not any(c.name in SOURCES_ for (_, c, _) in fc_):
             inserters.add(b.defp)
     ctx.floor("R4e", "replay-cache insert functions", 1, len(inserters))
